@@ -222,6 +222,12 @@ func runProd(t *testing.T, tk []string) string {
 	if manual {
 		opts = append(opts, kgo.ManualFlushing())
 	}
+	if seed%3 == 0 {
+		// a small batch limit: the 5% of records with a 200-1400 byte value pass admission (when MaxBufferedBytes
+		// allows) but do not fit a batch on their own, so they are failed with MESSAGE_TOO_LARGE after having been counted
+		opts = append(opts, kgo.ProducerBatchMaxBytes(512))
+		hx.St.Inc("scen.prod.small-batch-max")
+	}
 	cl, err := kgo.NewClient(opts...)
 	if err != nil {
 		return "ERR:client:" + err.Error()
